@@ -98,6 +98,10 @@ func judge(t *testing.T, pd *PropDef, scn *Scenario, tape []int32) *Run {
 		}()
 		pd.Oracle(run)
 	}()
+	if run.Discard != "" {
+		run.Findings = nil
+		run.Obligations = 0
+	}
 	return run
 }
 
@@ -187,6 +191,9 @@ func workerExplore(t *testing.T, pd *PropDef) {
 		rep.SimNanos += run.Stats.SimNanos
 		rep.Classes[scn.Class]++
 		rep.Reasons[run.Reason]++
+		if run.Discard != "" {
+			rep.Discarded[run.Discard]++
+		}
 		for k, v := range run.Stats.Faults {
 			if v > 0 {
 				rep.Faults[faultNames[k]] += v
@@ -343,6 +350,9 @@ func dumpRun(run *Run) {
 		if e.Net != nil {
 			fmt.Printf("    tap(%d bytes after head)=%s\n", len(wsTap(e)), short(wsTap(e)))
 			for _, c := range e.Net.Calls() {
+				if os.Getenv("WSIM_CALLS") == "" {
+					break
+				}
 				fmt.Printf("    call %c step=%d t=%d arg=%d n=%d err=%d fault=%d\n", c.Op, c.Step, c.T, c.Arg, c.N, c.Err, c.Fault)
 			}
 		}
